@@ -28,6 +28,20 @@ def run(ctx):
     sim = 1500 if thorough else 400
     worlds.run_suite(ctx, [("W1", 3, None, 8000), ("W6", 6, sim, None), ("W3", 6, sim, None)],
                      nontrivial=lambda b: any(s["snap"] for s in b[1:]))
+    # a reload replaces (and drops) the old value only when no read guard can reach it
+    import os
+    out = os.path.join(vlib.WORK, f"c13-guard-{os.getpid()}.ndjson")
+    rep = worlds.parse_report(vlib.run_bin("amv", ["c07-stress", out, ctx.seed, 100 if thorough else 50, "local"], timeout=300))
+    verdict, tr, detail = vlib.trace_check("Trace_RwGuard", "Trace_RwGuard_local.cfg", out, name="c13-guard")
+    if verdict == "error":
+        raise vlib.ToolError(f"trace validation failed to run: {detail}")
+    if verdict != "accepted" or rep["torn"]:
+        keep = out + ".rejected"
+        os.replace(out, keep)
+        ctx.violation("C13/replaced-under-guard", "a value was replaced by a reload while a read guard could still reach it", dict(trace_file=keep, tlc=detail))
+    else:
+        ctx.cov["traces_validated_against_impl"] += 1
+        os.remove(out)
     rep = worlds.parse_report(vlib.run_bin("amv", ["c13-types"]))
     ctx.cov["layout_probe_types"] = rep["cases"]
     ctx.cov["type_pair_checks"] = rep["checks"]
